@@ -638,6 +638,9 @@ def run(ctx: Ctx) -> int:
             edged = [i for i, x in enumerate(snap0) if x != "-"]
             if not edged:
                 continue
+            tb0 = d0.sheets[si].tables[ti]
+            merged_cells = {(r, c) for r in range(nr) for c in range(nc_)
+                            if type(tb0.cell(r, c)).__name__ == "MergedCell" or tb0.cell(r, c).is_merged}
             for k in range(3 if ctx.quick else 12):
                 strokes = []
                 for j in range(rng.randrange(1, 4)):
@@ -651,9 +654,15 @@ def run(ctx: Ctx) -> int:
                     r, c = divmod(cell, nc_)
                     side = SIDES[sd]
                     room = nc_ - c if side in ("top", "bottom") else nr - r
-                    strokes.append([r, c, side, rng.choice([0.5, 2.0, 3.0]), rng.randrange(1, min(3, room) + 1)])
+                    ln = rng.randrange(1, min(3, room) + 1)
+                    run = [(r, c + q) if side in ("top", "bottom") else (r + q, c) for q in range(ln)]
+                    if any((rr, cc) in merged_cells for rr, cc in run):
+                        continue      # strokes along merged cells follow the library's own rules (refused with a warning)
+                    strokes.append([r, c, side, rng.choice([0.5, 2.0, 3.0]), ln])
                     if k == 0 and newest:
                         break
+                if not strokes:
+                    continue
                 ctx.count("oracle-fixture-borders")
                 ctx.nontrivial(("fixture-borders", name, si, ti, json.dumps(strokes)))
                 for sig, detail in fixture_border_oracle(name, si, ti, strokes, ctx.tmp, f"fb{si}_{ti}_{k}"):
